@@ -1877,6 +1877,23 @@ func (p *parser) projection(prec int) (Node, error) {
 	var node Node
 	var err error
 	switch p.curr.Type {
+	case lexer.ArrayWildcardToken:
+		if err := p.advance(); err != nil {
+			return nil, err
+		}
+
+		child, err := p.projection(precedence(lexer.ObjectWildcardToken))
+		if err != nil {
+			return nil, err
+		}
+
+		if child == nil {
+			node = PruneArrayCurrentNode{}
+		} else {
+			node = &ProjectArrayCurrentNode{
+				Child: child,
+			}
+		}
 	case lexer.DotToken:
 		switch p.next.Type {
 		case lexer.ArrayWildcardToken:
@@ -1965,6 +1982,26 @@ func (p *parser) projection(prec int) (Node, error) {
 	newPrec := precedence(p.curr.Type)
 	for newPrec > prec {
 		switch p.curr.Type {
+		case lexer.ArrayWildcardToken:
+			if err := p.advance(); err != nil {
+				return nil, err
+			}
+
+			right, err := p.projection(precedence(lexer.ObjectWildcardToken))
+			if err != nil {
+				return nil, err
+			}
+
+			if right == nil {
+				node = &PruneArrayNode{
+					Child: node,
+				}
+			} else {
+				node = &ProjectArrayNode{
+					Left:  node,
+					Right: right,
+				}
+			}
 		case lexer.DotToken:
 			switch p.next.Type {
 			case lexer.ArrayWildcardToken:
